@@ -236,6 +236,15 @@ async def _build(env, case, ctx):
             st = wf.create_step(env.ExecuteStep, name=s["n"], job_port=sched.get_output_port())
             st.command = env.VCommand(st, add=s.get("add", 0), fail=s.get("fail", ()), yields=s.get("yields", 0),
                                       hold=s.get("hold", False))
+        elif k == "merge":
+            # CWL `source: [a, b, ...]` (linkMerge merge_nested): ListMergeCombinator over the source ports
+            from streamflow.cwl.combinator import ListMergeCombinator
+
+            comb = ListMergeCombinator(s["n"] + "-c", wf, input_names=list(s["ins"]), output_name=next(iter(s["outs"])),
+                                       flatten=s.get("flatten", False))
+            for i in s["ins"]:
+                comb.add_item(i)
+            st = wf.create_step(env.CombinatorStep, name=s["n"], combinator=comb)
         elif k in ("dot", "cart"):
             if k == "dot":
                 comb = env.Dot(s["n"] + "-c", wf)
@@ -533,8 +542,27 @@ def gen_tg_net(rng, big=False, fail_p=0.4, unequal_p=0.2, quirk_p=0.1, hold_p=0.
 def gen_sg_net(rng, fail_p=0.3):
     """the scatter/gather and combinator families (real ScatterStep / GatherStep / CombinatorStep)"""
     n = rng.choice([0, 1, 2, 3, 5, 11])
-    fam = rng.choice(["sg", "sg", "dot", "cart", "bcast"])
+    fam = rng.choice(["sg", "sg", "dot", "cart", "bcast", "merge"])
     steps = []
+    if fam == "merge":
+        # 2-3 source ports carrying the same tags (each in its own order) merged into one list per tag by a
+        # ListMergeCombinator (CWL multiple `source:`), then a transformer
+        m = rng.choice([2, 2, 3])
+        n = rng.choice([1, 2, 3, 5])
+        tags = [f"0.{i}" for i in range(n)] if rng.random() < 0.7 else ["0"]
+        inputs = {}
+        for j in range(m):
+            tj = list(tags)
+            rng.shuffle(tj)
+            inputs[f"i{j}"] = [[t, rng.randrange(0, 30)] for t in tj]
+        names = ["a", "b", "c"][:m]
+        steps.append({"n": "/m", "k": "merge", "ins": {nm: f"i{j}" for j, nm in enumerate(names)}, "outs": {"o": "mo"}})
+        steps.append({"n": "/t", "k": "xf", "ins": {"x": "mo"}, "outs": {"o": "r"}, "add": rng.randrange(0, 5),
+                      "yields": rng.choice([0, 1, 3])})
+        case = {"f": "net", "steps": steps, "inputs": inputs, "sched": rng.randrange(1 << 30)}
+        if rng.random() < fail_p:
+            steps[1]["fail"] = [rng.choice(tags)]
+        return fix_outputs(case)
     if fam == "bcast":
         # a scattered port and a NON-scattered one (tag 0, broadcast to every element) combined by a dot product,
         # as the CWL translator does for a scatter step with non-scattered inputs; then transform and gather
